@@ -158,6 +158,31 @@ def dangling_under_kind(prog, rule):
             judged += 1
             root = re.match(r"[\(\*&]*(\w+)", base).group(1)
             bad = None
+            # the store may sit in a `case V:` block of a switch on P: later tests of P against another constant cannot
+            # succeed on paths from the store (P not re-assigned in between): remove those edges
+            dead_edges = set()
+            lab = fn.blocks[sb].label
+            if lab and lab.get("k") == "case" and lab.get("v") is not None:
+                heads = [h for h in fn.blocks.values() if sb in [x for x in h.succs if x is not None] and h.term and h.term.get("k") == "SwitchStmt"]
+                for h in heads:
+                    cnd = cfgq.cond_of(fn, h)
+                    P = path(strip(cnd)) if cnd is not None else None
+                    if not P:
+                        continue
+                    if any(path(strip(a2.get("lhs"))) == P for (b2, i2, r2, a2) in fn.eval_sites("asg")):
+                        continue
+                    for tb in fn.blocks.values():
+                        c2 = cfgq.cond_of(fn, tb)
+                        if c2 is None or len(tb.succs) != 2:
+                            continue
+                        t = cfgq.cmp_test(c2, lambda e, P=P: path(strip(e)) == P)
+                        if t is None:
+                            continue
+                        op, cv = t
+                        if op == "==":
+                            dead_edges.add((tb.id, 0 if cv != lab["v"] else 1))
+                        elif op == "!=":
+                            dead_edges.add((tb.id, 1 if cv != lab["v"] else 0))
             for (fb, fi, fr, c) in fn.calls_to("free"):
                 args = c.get("args", [])
                 ap = path(strip(args[0])) if args else None
@@ -167,8 +192,8 @@ def dangling_under_kind(prog, rule):
                 if re.match(r"[\(\*&]*(\w+)", bb).group(1) != root:
                     continue
                 # is the free reachable after the store?
-                after = (fb.id == sb and fi > si) or (fb.id != sb and fb.id in cfgq.reach(fn, [sb])) or \
-                        (fb.id == sb and fb.id in cfgq.reach(fn, [s for s in fn.blocks[sb].succs if s is not None]))
+                after = (fb.id == sb and fi > si) or (fb.id != sb and fb.id in cfgq.reach(fn, [sb], (), dead_edges)) or \
+                        (fb.id == sb and fb.id in cfgq.reach(fn, [s for s in fn.blocks[sb].succs if s is not None], (), dead_edges))
                 if not after:
                     continue
                 # from the free, can the exit be reached without another kind store on the object / a release of the object?
@@ -497,3 +522,114 @@ def exclusive_end_guards(prog, rule):
                                "`%s - x` as an element count): when the two are equal the access is one element past the data"
                                % (xs, show(cs), path(rr) if path(rr) in ends else path(l), path(rr) if path(rr) in ends else path(l)))
     return judged
+
+
+# ------------------------------------------------------------------------------------------------ shell free with owned fields
+ALLOCS = ("malloc", "calloc", "realloc", "strdup", "cif_u_strdup", "cif_u_strndup")
+
+
+def shell_free_with_fields(prog, rule, functions, may_oom):
+    """For functions the ownership typestate cannot model (macro families that allocate conditionally): an object whose
+    pointer field has been filled with a fresh allocation must not be released by a plain free() of the object on a path
+    where that field has neither been freed nor the object deep-released / handed over.  Only paths through a call that
+    can fail for lack of memory are violations (the property's precondition excludes corrupt stored data); other paths are
+    listed as information.
+    functions: names to analyse; may_oom: names of callees that may return CIF_MEMORY_ERROR (or NULL)."""
+    n = 0
+    for name in functions:
+        fn = prog.fn(name)
+        # alias groups: v = (T *) val
+        group = {}
+        for (b, i, r, d) in fn.eval_sites("decl"):
+            for v in d.get("vars", []):
+                if v.get("init") is not None and "*" in (v.get("t") or ""):
+                    src = path(strip(v["init"]))
+                    if src and src.replace("_", "a").isalnum():
+                        group[v["name"]] = group.get(src, src)
+        def rep(x):
+            return group.get(x, x)
+        fresh = set()
+        for (b, i, r, x) in fn.eval_sites():
+            if x.get("k") == "decl":
+                for v in x.get("vars", []):
+                    ini = strip(v.get("init")) if v.get("init") is not None else None
+                    if isinstance(ini, dict) and ini.get("k") == "call" and ini.get("callee") in ALLOCS:
+                        fresh.add(v["name"])
+            elif x.get("k") == "asg" and x.get("op") == "=":
+                rr = strip(x.get("rhs"))
+                lp = path(strip(x.get("lhs")))
+                if isinstance(rr, dict) and rr.get("k") == "call" and rr.get("callee") in ALLOCS and lp and lp.replace("_", "a").isalnum():
+                    fresh.add(lp)
+        stores = []
+        for (b, i, r, a) in fn.eval_sites("asg"):
+            l = strip(a.get("lhs"))
+            if not isinstance(l, dict) or l.get("k") != "member" or a.get("op") != "=":
+                continue
+            rr = strip(a.get("rhs"))
+            is_fresh = (isinstance(rr, dict) and rr.get("k") == "call" and rr.get("callee") in ALLOCS) or (path(rr) in fresh)
+            if not is_fresh:
+                continue
+            from .facts import root_var
+            root = root_var(l)
+            if root:
+                stores.append((b.id, i, a, rep(root), l["name"], path(l)))
+        shell_frees = [(b.id, i, c, rep(path(strip(c["args"][0])))) for (b, i, r, c) in fn.calls_to("free")
+                       if c.get("args") and (path(strip(c["args"][0])) or "").replace("_", "a").isalnum()]
+        for (sb, si, a, g, fld, lp) in stores:
+            for (fb, fi, c, fg) in shell_frees:
+                if fg != g:
+                    continue
+                n += 1
+                barrier = set()
+                for (b2, i2, r2, c2) in fn.calls():
+                    cal = c2.get("callee")
+                    args = c2.get("args") or []
+                    ap = path(strip(args[0])) if args else None
+                    if cal == "free" and ap == lp:
+                        barrier.add(b2.id)
+                    if cal in ("cif_value_free", "cif_value_clean", "cif_packet_free") and ap and rep(ap.lstrip("&(").split("-")[0].split(".")[0]) == g:
+                        barrier.add(b2.id)
+                for (b2, i2, r2, a2) in fn.eval_sites("asg"):
+                    rp = path(strip(a2.get("rhs")))
+                    # hand-over: the object pointer is stored somewhere that outlives the function (`value = val`, `*out = v`)
+                    if rp and rep(rp) == g and path(strip(a2.get("lhs"))) and rep(path(strip(a2.get("lhs")))) != g:
+                        barrier.add(b2.id)
+                barrier.discard(sb)
+                after = cfgq.reach(fn, [sb], barrier)
+                key = "%s:%s then free(%s)@L%s" % (name, lp, path(strip(c["args"][0])), c.get("l"))
+                if fb not in after or (fb == sb and fi < si):
+                    rule.ok(key, "the field is released, or the object handed over / deep-released, on every path to the shell free")
+                    continue
+                # is there a may-OOM call on some such path between the store and the free?
+                culprit = None
+                for (b2, i2, r2, c2) in fn.calls():
+                    if not (c2.get("callee") in may_oom and ((b2.id == sb and i2 > si) or (b2.id != sb and b2.id in after))):
+                        continue
+                    # the branch that tests this call's result, and its failing outcome
+                    for tb in fn.blocks.values():
+                        cnd = cfgq.cond_of(fn, tb)
+                        if cnd is None or len(tb.succs) != 2:
+                            continue
+
+                        def holds(e, cid=c2.get("id")):
+                            return any(y.get("id") == cid for y in walk(e))
+                        z = cfgq.zero_test(cnd, holds)
+                        if z is None:
+                            continue
+                        zero_edge = 0 if z == "true" else 1
+                        fail_edge = zero_edge if c2.get("callee") in ALLOCS else 1 - zero_edge
+                        tgt = tb.succs[fail_edge]
+                        if tgt is not None and tgt not in barrier and fb in cfgq.reach(fn, [tgt], barrier):
+                            culprit = c2
+                    if culprit is not None:
+                        break
+                if culprit is not None:
+                    rule.violation(fn.file, name, c.get("l"), "shell-free-leaks-field:%s:%s" % (name, fld),
+                                   "`%s` receives a fresh allocation at L%s; when the later call to %s (L%s) fails (it can return "
+                                   "CIF_MEMORY_ERROR) the object is released with a plain free(%s) at L%s without releasing that "
+                                   "field: the allocation leaks" % (lp, a.get("l"), culprit.get("callee"), culprit.get("l"),
+                                                                   path(strip(c["args"][0])), c.get("l")))
+                else:
+                    rule.ok(key, "the shell free is reachable with the field still owned only through failures of reads from the stored "
+                            "blob (corrupt data: outside the property's preconditions), not through a call that can run out of memory")
+    return n
